@@ -80,6 +80,9 @@ def run_pair(ctx, pred, refa, it, rot, fam):
                 mconfs.append(dict(mk, metric=metric, thr=thr))
     for mc in mconfs:
         cfg = {"input": it, "backend": backend, "matcher": mc}
+        if ndim >= 2 and rot % 5 == 0:
+            cfg["metrics"] = ["DSC", "IOU", "ASSD", "RVD", "clDSC"]
+            ctx.count("f:C02.cldsc_as_instance_metric")
         base = evaluate(ctx, pred, refa, cfg, key)
         if not base or not isinstance(base["tp"], int) or base["tp"] == 0:
             continue
